@@ -74,3 +74,37 @@ def render(rng, t, parent=0, redundant=0.2):
     if p < parent or rng.random() < redundant:
         s = '(' + sp(rng) + s + sp(rng) + ')'
     return s
+
+
+def spell_value(rng, v, spaces=None):
+    """an integer expression text whose value is v, built from one of the documented operators (Python integer semantics):
+    the same number as a literal would give, written the way people write derived quantities (`CLOCK // BAUD`, `SIZE - 1`)"""
+    q = rng.randrange(2, 9)
+    a = rng.randrange(1, 50)
+    k = rng.randrange(10)
+    if k == 0:
+        t = '%d // %d' % (v * q + rng.randrange(q), q)
+    elif k == 1:
+        t = '%d // %d' % (v * q, q)
+    elif k == 2 and v >= 0:
+        b = v + a
+        t = '%d %% %d' % (v + b * rng.randrange(0, 5), b)
+    elif k == 3:
+        sh = rng.randrange(1, 8)
+        t = '%d >> %d' % (v << sh, sh)
+    elif k == 4:
+        t = '%d - %d' % (v + a, a)
+    elif k == 5:
+        t = '%d ^ %d' % (v ^ a, a)
+    elif k == 6:
+        t = '~%d' % (~v)
+    elif k == 7:
+        t = '%d * %d + %d' % (v // q, q, v % q)
+    elif k == 8 and v >= 0 and v % 2 == 0 and v:
+        low = (v & -v).bit_length() - 1
+        t = '%d << %d' % (v >> low, low)
+    else:
+        t = '%d + %d' % (v - a, a)          # (no parenthesis in front: `(40)+4` after a load / store reads as offset(base))
+    if spaces is None:
+        spaces = rng.random() < 0.7
+    return t if spaces else t.replace(' ', '')
